@@ -27,24 +27,24 @@ structure Quirks where
   truncFloor : Bool := false
   /-- F41: `string-length`, `substring`, `translate` count bytes, not characters -/
   bytes : Bool := false
-  /-- F50: the predicates of a step are applied once to the merged result of all context nodes -/
+  /-- F250: the predicates of a step are applied once to the merged result of all context nodes -/
   predMerged : Bool := false
-  /-- F51: `following`/`preceding` are empty unless the context node has a following/preceding sibling;
+  /-- F251: `following`/`preceding` are empty unless the context node has a following/preceding sibling;
       `preceding` includes ancestors -/
   follPrec : Bool := false
-  /-- F52: `*` matches the root node; `node()` does not match text nodes -/
+  /-- F252: `*` matches the root node; `node()` does not match text nodes -/
   nodeTests : Bool := false
-  /-- F53: a numeric predicate is truncated before it is compared with the position -/
+  /-- F253: a numeric predicate is truncated before it is compared with the position -/
   predTrunc : Bool := false
-  /-- F54: `text()` selects nothing except on the child axis; a terminal with the empty value has a text child -/
+  /-- F254: `text()` selects nothing except on the child axis; a terminal with the empty value has a text child -/
   textQuirk : Bool := false
-  /-- F55: string-value of a non-terminal node is an indented multi-line rendering -/
+  /-- F255: string-value of a non-terminal node is an indented multi-line rendering -/
   strContainer : Bool := false
-  /-- F56: node-set compared with a boolean is evaluated per node (false for the empty node-set) -/
+  /-- F256: node-set compared with a boolean is evaluated per node (false for the empty node-set) -/
   nsBool : Bool := false
-  /-- F61: `floor` of NaN / ±Infinity evaluates to the context node-set -/
+  /-- F261: `floor` of NaN / ±Infinity evaluates to the context node-set -/
   floorNonFinite : Bool := false
-  /-- F64: two-argument `substring` with start −Infinity returns the empty string -/
+  /-- F264: two-argument `substring` with start −Infinity returns the empty string -/
   substrNegInf : Bool := false
 deriving Inhabited, Repr
 
@@ -190,7 +190,7 @@ def Value.toOpnd (env : Env) : Value N → Comp.Opnd N
   | .num n => .num n
   | .bool b => .bool b
 
-/-- `= != < <= > >=`: REC §3.4 (`Comp.Spec.compare`); with switch F56 on, libyang's `moveto_op_comp` (`Comp.C.opComp`), which
+/-- `= != < <= > >=`: REC §3.4 (`Comp.Spec.compare`); with switch F256 on, libyang's `moveto_op_comp` (`Comp.C.opComp`), which
 `Props.C08.compare_table_partial` shows to be the same function except on node-set × boolean. -/
 def compare (env : Env) (op : BinOp) (a b : Value N) : Bool :=
   let c : Comp.Cfg := { numFmt := env.q.numFmt, strtold := env.q.strtold }
